@@ -477,7 +477,11 @@ func (q dec) divBasic(u, v dec) {
 			// If n == qhl, the carry from subVV and the carry from addVV
 			// cancel out and don't affect u[j+n].
 			if n < qhl {
-				u[j+n] += c
+				// the borrow left u[j+n] at _DB-1; adding the carry wraps it
+				// around to 0 (decimal words do not wrap by themselves).
+				if u[j+n] += c; u[j+n] >= _DB {
+					u[j+n] -= _DB
+				}
 			}
 			qhat--
 		}
